@@ -44,6 +44,16 @@ TABLE = [
     ("TRIO_MAX_AMP_CHANGE", PN + "stableswap_3pool/src/contract.rs", r"pub const MAX_AMP_CHANGE: u64 = " + NUM),
     ("COLLECTOR_MINIMUM_AGGREGABLE_BALANCE", LH + "fee_collector/src/commands.rs",
      r"const MINIMUM_AGGREGABLE_BALANCE: Uint128 = Uint128::new\(" + NUM + r"u128\)"),
+    # the page limit of the four CollectFees / AggregateFees self-calls of `forward_fees` (vault factory,
+    # pool factory, twice each): all four must pass the SAME `limit: Some(<n>u32)`; `limit: None`, a
+    # different spelling, or four limits that are not equal leave the pattern unmatched (MISSING-CONSTANT)
+    ("COLLECTOR_FORWARD_FEES_LIMIT", LH + "fee_collector/src/commands.rs",
+     r"pub fn forward_fees\((?:(?!\n\}\n)[\s\S])*?"
+     r"FactoryType::Vault \{\s*start_after: None,\s*limit: Some\(" + NUM + r"u32\),\s*\}(?:(?!\n\}\n)[\s\S])*?"
+     r"FactoryType::Pool \{\s*start_after: None,\s*limit: Some\(\1u32\),\s*\}(?:(?!\n\}\n)[\s\S])*?"
+     r"FactoryType::Vault \{\s*start_after: None,\s*limit: Some\(\1u32\),\s*\}(?:(?!\n\}\n)[\s\S])*?"
+     r"FactoryType::Pool \{\s*start_after: None,\s*limit: Some\(\1u32\),\s*\}"
+     r"(?:(?!\n\}\n|FactoryType::)[\s\S])*\n\}\n"),
     ("DISTRIBUTOR_MAX_GRACE_PERIOD", LH + "fee_distributor/src/helpers.rs", r"const MAX_GRACE_PERIOD: u64 = " + NUM),
     ("DISTRIBUTOR_DAY_IN_NANOSECONDS", LH + "fee_distributor/src/helpers.rs",
      r"pub const DAY_IN_NANOSECONDS: u64 = " + NUM),
